@@ -45,8 +45,24 @@ func distanceMeters(context *api.Context, a b6.Geometry, b b6.Geometry) (float64
 	return b6.AngleToMeters(a.Point().Distance(b.Point())), nil
 }
 
+// expectPath returns an error unless the given geometry is a path with at
+// least one point, which functions that walk along a path rely on.
+func expectPath(g b6.Geometry) error {
+	if g == nil {
+		return fmt.Errorf("expected a path, found nothing")
+	} else if g.GeometryType() != b6.GeometryTypePath || g.GeometryLen() < 1 {
+		return fmt.Errorf("expected a path")
+	}
+	return nil
+}
+
 // Return the distance in meters between the given path, and the project of the give point onto it.
 func distanceToPointMeters(context *api.Context, path b6.Geometry, point b6.Geometry) (float64, error) {
+	if err := expectPath(path); err != nil {
+		return 0.0, err
+	} else if point == nil {
+		return 0.0, fmt.Errorf("expected a point, found nothing")
+	}
 	polyline := *path.Polyline()
 	projection, vertex := polyline.Project(point.Point())
 	distance := polyline[vertex-1].Distance(projection)
@@ -61,6 +77,9 @@ func distanceToPointMeters(context *api.Context, path b6.Geometry, point b6.Geom
 // For multipolygons, we return the centroid of the convex hull formed from
 // the points of those polygons.
 func centroid(context *api.Context, geometry b6.Geometry) (b6.Geometry, error) {
+	if geometry == nil {
+		return nil, fmt.Errorf("expected a geometry, found nothing")
+	}
 	switch geometry.GeometryType() {
 	case b6.GeometryTypePoint:
 		return geometry, nil
@@ -80,6 +99,9 @@ func centroid(context *api.Context, geometry b6.Geometry) (b6.Geometry, error) {
 
 // Return the point at the given fraction along the given path.
 func interpolate(context *api.Context, path b6.Geometry, fraction float64) (b6.Geometry, error) {
+	if err := expectPath(path); err != nil {
+		return nil, err
+	}
 	polyline := path.Polyline()
 	point, _ := polyline.Interpolate(fraction)
 	return b6.GeometryFromLatLng(s2.LatLngFromPoint(point)), nil
